@@ -204,11 +204,11 @@ let meta_string (m : cmeta) : string =
     sn m.c_binver; sn m.c_odi; b2s m.c_witness ]
 
 type header = { mutable cs : n; mutable gc : n; mutable to_ : n; mutable slots : n; mutable did : n;
-                mutable par : bool; mutable fail : string; mutable wb : string;
+                mutable par : bool; mutable cgc : bool; mutable fail : string; mutable wb : string;
                 mutable files : (string * string) list (* path, data; reversed *) }
 
 let parse_header_fields (fields : string list) : header =
-  let h = { cs = snapshot_chunk_size; gc = N0; to_ = N0; slots = N0; did = N0; par = false; fail = "none"; wb = ""; files = [] } in
+  let h = { cs = snapshot_chunk_size; gc = N0; to_ = N0; slots = N0; did = N0; par = false; cgc = false; fail = "none"; wb = ""; files = [] } in
   List.iter (fun kv ->
     match String.index_opt kv '=' with
     | None -> failwith ("bad header field " ^ kv)
@@ -221,6 +221,7 @@ let parse_header_fields (fields : string list) : header =
       else if k = "did" then h.did <- ns v
       else if k = "steady" then ()
       else if k = "par" then h.par <- (v = "1")
+      else if k = "cgc" then h.cgc <- true
       else if k = "fail" then h.fail <- v
       else if k = "wb" then h.wb <- expand_pieces v
       else if k.[0] = 'F' then begin
@@ -323,6 +324,42 @@ let run_parallel (id : string) (h : header) (body : string) =
     (String.concat " " fin) (List.length !st.s_out);
   List.iter (fun s -> Printf.printf "%s notif %s\n" id s) (sorted (List.map notif_s !st.s_out))
 
+(* cgc: the gc tick "K" runs concurrently with the Add that follows it; the two sequential
+   orders are the allowed outcomes: their final states are printed, the implementation's
+   concurrent run must end in one of them *)
+let run_cgc (id : string) (h : header) (body : string) =
+  let files = Array.of_list (List.rev_map snd h.files) in
+  let ops = Array.of_list (List.filter (fun s -> s <> "")
+      (List.map String.trim (Str.split (Str.regexp_string " ; ") body))) in
+  let ki = ref (-1) in
+  Array.iteri (fun i o -> if o = "K" then ki := i) ops;
+  let run_order (swap : bool) : string =
+    let l = Array.copy ops in
+    if swap then begin let t = l.(!ki) in l.(!ki) <- l.(!ki + 1); l.(!ki + 1) <- t end;
+    let do_step st o = step dapp vinit vadd vfinal fix_mid fix_first h.did h.gc h.to_ h.slots st o in
+    let rec ticks st k = if k <= 0 then st else
+        (match do_step st OTick with Done (st', _) -> ticks st' (k - 1) | Panic -> st) in
+    let st = ref (init : (string, v) state) in
+    let panicked = ref false in
+    let verdicts = Buffer.create 16 in
+    Array.iteri (fun i o ->
+      if not !panicked then begin
+        let f = Array.of_list (split_ws o) in
+        match f.(0) with
+        | "A" -> (match do_step !st (OAdd (parse_meta f 1, parse_data files f.(22))) with
+            | Done (st', ok) -> st := st'; if i >= !ki then Buffer.add_char verdicts (if ok then 'a' else 'r')
+            | Panic -> panicked := true)
+        | "T" -> st := ticks !st (int_of_string f.(1))
+        | "K" -> st := ticks !st 1
+        | "Z" -> st := ticks !st (int_of_n h.to_ + int_of_n h.gc + 1)
+        | "C" -> (match do_step !st OClose with Done (st', _) -> st := st' | Panic -> panicked := true)
+        | _ -> failwith ("bad op in cgc case " ^ o)
+      end) l;
+    if !panicked then "panic" else "v=" ^ Buffer.contents verdicts ^ " " ^ state_s !st in
+  Printf.printf "%s seq1 %s\n" id (run_order false);
+  Printf.printf "%s seq2 %s\n" id (run_order true);
+  Printf.printf "%s cgc allowed\n" id
+
 (* G: Transport.SendSnapshot end to end. The sender is the model's send_message, the chunks
    delivered before the injected failure go to the model receiver; one status report
    (rejected iff a failure was injected) and one release of the snapshot are expected. *)
@@ -372,6 +409,7 @@ let run_receiver (id : string) (h : header) (body : string) =
            | Done (st', ok) -> st := st'; if ok then "ok" else "rej"
            | Panic -> "panic")
         | "T" -> st := ticks !st (int_of_string f.(1)); "-"
+        | "K" -> st := ticks !st 1; "-"
         | "Z" -> st := ticks !st (int_of_n h.to_ + int_of_n h.gc + 1); "-"
         | "X" -> (match do_step !st (ORemoved (ns f.(1), ns f.(2))) with
             | Done (st', _) -> st := st'; "-" | Panic -> "panic")
@@ -459,7 +497,9 @@ let () =
     | id :: "G" :: fields -> run_glue id (parse_header_fields fields) body
     | id :: "R" :: fields ->
       let h = parse_header_fields fields in
-      if h.par then run_parallel id h body else run_receiver id h body
+      let has_pair = (try ignore (Str.search_forward (Str.regexp_string "K ; A ") body 0); true with Not_found -> false) in
+      if h.cgc && has_pair then run_cgc id h body
+      else if h.par then run_parallel id h body else run_receiver id h body
     | id :: "S" :: fields -> run_sender id (parse_header_fields fields) body
     | [] -> ()
     | id :: _ -> Printf.printf "%s ? unparsed\n" id)
